@@ -225,7 +225,8 @@ func runCli(c *run.Ctx, cs *Case) (crashed bool, detail string) {
 	stderr := se.String()
 	switch {
 	case cx.Err() != nil:
-		return true, fmt.Sprintf("did not return within %d s (killed)", secs)
+		c.Count("cli_timeouts", 1)
+		return true, fmt.Sprintf("%s %d s (killed)", cliTimeoutMark, secs)
 	case strings.Contains(stderr, "goroutine ") && (strings.Contains(stderr, "panic:") || strings.Contains(stderr, "fatal error:")):
 		first := ""
 		for _, ln := range strings.Split(stderr, "\n") {
@@ -238,6 +239,8 @@ func runCli(c *run.Ctx, cs *Case) (crashed bool, detail string) {
 	}
 	return false, ""
 }
+
+const cliTimeoutMark = "did not return within"
 
 type cappedBuf struct{ b bytes.Buffer }
 
@@ -283,8 +286,13 @@ func cliSpotChecks(c *run.Ctx, pinnedPanicked []bool) {
 		inPanicked := i < len(pinnedPanicked) && pinnedPanicked[i]
 		cli := *cs
 		cli.Kind = "cli"
+		cli.CliSecs = 600
 		crashed, detail := runCli(c, &cli)
 		switch {
+		case crashed && strings.HasPrefix(detail, cliTimeoutMark):
+			// these witnesses finish in milliseconds or panic at once: a timeout says the machine is overloaded,
+			// nothing about rare (the in-process verdict stands; the spot check is only a confirmation)
+			c.Note("CLI spot check timed out (overloaded machine?), skipped: " + cs.Show)
 		case crashed && inPanicked:
 			c.Count("cli_crash_confirms_inprocess_panic", 1)
 		case crashed:
